@@ -1,3 +1,8 @@
-ENGINES=[]
-for _p in ["C01","C02","C03","C05","C06","C07","C08","C09","C10","C12","C17","C18"]:
-    PENDING[_p]="not claimed yet: the simulation engine for this property (DESIGN.md s3/s4) is not built in this commit"
+import sys, os
+sys.path.insert(0, os.path.join(HERE, "driver"))
+from props import PROPS, ENGINES
+for _p, _c in PROPS.items():
+    CHECKS[_p] = dict(engine=_c["engine"], category=_c["category"], text=_c["text"], note=_c["note"], technique=_c["technique"], design_ref=_c["design_ref"])
+for _p in ["C01","C02","C03","C05","C06","C09","C10","C12","C17","C18"]:
+    if _p not in PROPS:
+        PENDING[_p] = "not claimed yet: the simulation engine for this property (DESIGN.md s3/s4) is not built in this commit"
